@@ -38,7 +38,8 @@ def cases(draw, tier):
     spec = draw(gen.table_specs(tier, values=kind, md=True, history=False))
     steps = draw(st.lists(alphabet.op_strategy(), min_size=1,
                           max_size=6 if tier == "quick" else 10))
-    return {"table": spec, "steps": steps, "phase": draw(st.integers(0, 7))}
+    return {"table": spec, "steps": steps, "phase": draw(st.integers(0, 7)),
+            "blind": draw(st.sampled_from([False, False, True]))}
 
 
 def strategy(tier):
@@ -197,6 +198,9 @@ def check(case, rec):
     invariant(t, seen, "construction", phase)
     applied = 0
     relayout = 0
+    live = []
+    blind = bool(case.get("blind"))
+    rec.cls("blind-history", blind)
     for k, op in enumerate(case["steps"]):
         receiver = t
         if t.is_empty():
@@ -226,6 +230,16 @@ def check(case, rec):
             seen.update(str(i) for i in x.ids(axis="sample"))
         was_empty = bool(receiver.is_empty()) if out.result is not receiver \
             else None
+        last = k == len(case["steps"]) - 1
+        if blind and not last:
+            # "blind" histories: nothing reads the tables between two
+            # operations (reading re-lays-out a table and thereby separates
+            # objects two tables wrongly share)
+            if out.result is not None and out.result is not receiver:
+                live.append(receiver)
+                del live[:-3]
+                t = out.result
+            continue
         try:
             for x in out.results:
                 invariant(x, seen, what + " (result)", phase + k)
@@ -233,7 +247,21 @@ def check(case, rec):
         except Violation as v:
             v.info.update({"op": op["op"], "receiver_empty": was_empty})
             raise
-        if out.result is not None:
+        # tables left behind stay alive in real programs too: a later
+        # in-place operation on a result must not make an earlier table
+        # incoherent (shared matrix objects, shared lookups)
+        for j, old_t in enumerate(live):
+            if old_t is not receiver and not any(old_t is x
+                                                 for x in out.results):
+                try:
+                    invariant(old_t, seen, what + " (table left behind %d "
+                              "steps ago)" % (len(live) - j), phase + k + j)
+                except Violation as v:
+                    v.info.update({"op": op["op"], "left_behind": True})
+                    raise
+        if out.result is not None and out.result is not receiver:
+            live.append(receiver)
+            del live[:-3]
             t = out.result
         if t.is_empty():
             rec.cls("reached-empty")
@@ -354,6 +382,16 @@ def enum_chunks(tier):
 
 
 def enum_chunk(tier, chunk):
+    ti, first, second = chunk
+    tab = EXH_TABLES[ti]
+    d = DEPTH[tier]
+    for c in _enum_chunk(tier, chunk):
+        yield c
+        if len(c["steps"]) > 1:
+            yield dict(c, blind=True)
+
+
+def _enum_chunk(tier, chunk):
     ti, first, second = chunk
     tab = EXH_TABLES[ti]
     d = DEPTH[tier]
